@@ -242,7 +242,8 @@ _PYCMP = {"==": operator.eq, "!=": operator.ne, "<": operator.lt, "<=": operator
 class Interp:
     def __init__(self, world: World, oracle: Oracle = None, summaries=None, class_hooks=None,
                  domain=None, fuel=3_000_000, native_fields=True, while_hooks=None,
-                 attr_hooks=None, method_hooks=None, call_term_hook=None, loop_hooks=None):
+                 attr_hooks=None, method_hooks=None, call_term_hook=None, loop_hooks=None,
+                 int_bindings=None):
         self.world = world
         self.repo = world.repo
         self.oracle = oracle or Oracle()
@@ -264,6 +265,7 @@ class Interp:
         self.call_term_hook = call_term_hook
         self.loop_counter = 0
         self.sym_loop_depth = 0
+        self.int_bindings = int_bindings or {}     # case split: integer term -> concrete value
         self.cache_key = (native_fields, tuple(sorted(self.summaries)) if summaries else ())
 
     # ------------------------------------------------------------------ util
@@ -929,7 +931,11 @@ class Interp:
             if r is not NotImplemented:
                 return r
         if isinstance(a, Term) or isinstance(b, Term):
-            return self.term_binop(op, a, b, node)
+            r = self.term_binop(op, a, b, node)
+            if self.int_bindings and r in self.int_bindings:
+                self.emit("case_split", term=r, value=self.int_bindings[r], node=node)
+                return self.int_bindings[r]
+            return r
         if isinstance(a, (bytes, bytearray)) and isinstance(b, (bytes, bytearray)) and op == "add":
             return bytes(a) + bytes(b) if isinstance(a, bytes) else a + b
         try:
@@ -1140,35 +1146,10 @@ class Interp:
             raise AnalysisError(f"{self.where(node)}: index {show(base)}[{idx!r}]: {ex}")
 
     def bytes_slice(self, base, lo, hi, node):
-        lo = 0 if lo is None else lo
-        n = t_len(base)
-        if hi is None:
-            hi = n
-        if isinstance(lo, int) and isinstance(hi, int) and lo >= 0 and hi >= 0:
-            # try to cut through a concatenation of known-length pieces
-            parts = list(base.args) if isinstance(base, Term) and base.op == "concat" else [base]
-            out, pos, ok = [], 0, True
-            for p in parts:
-                pl = t_len(p)
-                if not isinstance(pl, int):
-                    ok = False
-                    break
-                a, bnd = max(lo, pos), min(hi, pos + pl)
-                if a < bnd:
-                    if a == pos and bnd == pos + pl:
-                        out.append(p)
-                    elif isinstance(p, bytes):
-                        out.append(p[a - pos: bnd - pos])
-                    else:
-                        out.append(Term("slice", (p, a - pos, bnd - pos), "bytes"))
-                pos += pl
-                if pos >= hi:
-                    break
-            if ok:
-                return t_concat(out)
-            if lo == 0 and isinstance(n, Term) is False:
-                pass
-        return Term("slice", (base, lo, hi), "bytes")
+        from .term import t_slice
+        if (isinstance(lo, int) and lo < 0) or (isinstance(hi, int) and hi < 0):
+            raise AnalysisError(f"{self.where(node)}: negative symbolic slice bound")
+        return t_slice(base, lo, hi)
 
     # ---------------------------------------------------------- comprehension
     def e_ListComp(self, e, fr):
